@@ -204,3 +204,15 @@ def run(ctx, rep):
     # every given file is one entry of the project's file table: its key must tell distinct paths apart and order them the same way in every run
     from rules.c06 import rule_types
     rule_types(ctx, rep, rid="R-C13-fileid")
+    # a panic in the command-line glue is exit status 101 with no coded diagnostic: the commands' own code (cli.rs, main) must not be able to
+    # panic (the libraries below it are C04's inventory; this is the part that belongs to the command-line contract)
+    from rules import c04, panics
+    from rules.panic_triage import TRIAGE
+    from rules.c04 import entry_bodies
+    entries = entry_bodies(ctx, rep, [CLI + "check", CLI + "echo", CLI + "tokenize", "ironplcc::main"])
+    r_p = rep.rule("R-C13-panic", "no panic-capable construct in the command-line functions themselves (cli.rs, main): a panic there ends the command with status 101 and no coded diagnostic",
+                   floor=0, floor_what="sites in cli.rs / main")
+    sites_, _ = c04.run_inventory(ctx, rep, r_p, entries, TRIAGE, only=lambda s_: norm(s_.body.id).startswith(("ironplcc::cli::", "ironplcc::main")))
+    if not sites_:
+        r_p.count_override = len([b for b in ctx.prog.bodies.values() if norm(b.id).startswith(("ironplcc::cli::", "ironplcc::main")) and "::test" not in norm(b.id)])
+        r_p.note("no panic-capable construct in the command-line functions today (zero expected; positive example: seeded/C13-N)")
